@@ -97,11 +97,11 @@ class Check:
         sys.stdout.flush()
         return 1 if viol_lines else (2 if self.exit_code == 2 else 0)
     def _save_internal(self, v, cases):
-        d = os.path.join(core.ROOT, 'evidence', 'internal'); os.makedirs(d, exist_ok=True)
+        d = os.path.join(core.EVIDENCE_DIR, 'internal'); os.makedirs(d, exist_ok=True)
         with open(os.path.join(d, '%s-%s.json' % (v.prop, core.case_hash(cases[0]))), 'w') as f:
             json.dump({'property': v.prop, 'signature': v.signature(), 'detail': v.detail, 'cases': cases}, f)
     def _write_replay(self, v, evalname, cases):
-        d = os.path.join(core.ROOT, 'evidence', 'replays'); os.makedirs(d, exist_ok=True)
+        d = os.path.join(core.EVIDENCE_DIR, 'replays'); os.makedirs(d, exist_ok=True)
         path = os.path.join(d, '%s-%s.json' % (v.prop, core.case_hash({'c': cases, 's': v.signature()})))
         with open(path, 'w') as f:
             json.dump({'property': v.prop, 'raw_property': v.extra.get('raw_prop', v.prop), 'class': v.cls, 'site': v.site, 'detail': v.detail, 'variant': v.variant, 'evaluator': evalname, 'seed': self.seed, 'cases': cases}, f, indent=1)
